@@ -193,16 +193,400 @@ Fixpoint delta_all (ids : list cid) (ps cs : list (option cobs)) : list event :=
   | _, _, _ => []
   end.
 
-Lemma fold3_trans_moves k nd : nact_ok k -> forall ids ps cs f,
-  (forall id p c, In id ids -> delta_evs id p c <> [] -> id_ok k id) ->
-  fold3 (trans_moves k) ids ps cs (mat (accounts k) nd f)
-  = mat (accounts k) nd (fun a d => f a d + log_effect (delta_all ids ps cs) a d).
+Lemma fold3_trans_moves k nd (P C : cid -> option cobs) : nact_ok k -> forall ids f,
+  (forall id, In id ids -> delta_evs id (P id) (C id) <> [] -> id_ok k id) ->
+  fold3 (trans_moves k) ids (map P ids) (map C ids) (mat (accounts k) nd f)
+  = mat (accounts k) nd (fun a d => f a d + log_effect (delta_all ids (map P ids) (map C ids)) a d).
 Proof.
-  intros Hn. induction ids as [|id ids IH]; intros ps cs f Hok; simpl.
+  intros Hn. induction ids as [|id ids IH]; intros f Hok; simpl.
   - apply mat_ext. intros. unfold log_effect. simpl. lia.
-  - destruct ps as [|p ps]; [apply mat_ext; intros; unfold log_effect; simpl; lia|].
-    destruct cs as [|c cs]; [apply mat_ext; intros; unfold log_effect; simpl; lia|].
-    rewrite (trans_moves_mat k nd f id p c Hn (Hok id p c (or_introl eq_refl))).
-    rewrite IH by (intros id' p' c' Hin; apply Hok; right; exact Hin).
+  - rewrite (trans_moves_mat k nd f id (P id) (C id) Hn (Hok id (or_introl eq_refl))).
+    rewrite IH by (intros id' Hin; apply Hok; right; exact Hin).
     apply mat_ext. intros a d _ _. rewrite log_effect_app. lia.
 Qed.
+
+Lemma delta_all_effect (P C : cid -> option cobs) a d : forall ids,
+  log_effect (delta_all ids (map P ids) (map C ids)) a d
+  = zsum (map (fun id => log_effect (delta_evs id (P id) (C id)) a d) ids).
+Proof. induction ids as [|id ids IH]; simpl; [reflexivity|]. rewrite log_effect_app, IH. lia. Qed.
+
+Lemma fold3_sum {A} (F : A -> option cobs -> option cobs -> Z) (P C : A -> option cobs) : forall ids a0,
+  fold3 (fun id p c acc => acc + F id p c) ids (map P ids) (map C ids) a0
+  = a0 + zsum (map (fun id => F id (P id) (C id)) ids).
+Proof. induction ids as [|id ids IH]; intros a0; simpl; [lia|]. rewrite IH. lia. Qed.
+
+(** ** Part B: sums over the id table *)
+Lemma zsum_indicator {A} `{EqDec A} (ids : list A) (k0 : A) (a : Z) (b : A -> Z) : NoDup ids -> In k0 ids ->
+  zsum (map (fun id => if eq_dec id k0 then a else b id) ids) = a - b k0 + zsum (map b ids).
+Proof.
+  induction ids as [|i ids IH]; intros Hnd Hin; [destruct Hin|].
+  inversion Hnd as [|? ? Hni Hnd']; subst. simpl. destruct (eq_dec i k0) as [->|Hne].
+  - assert (E : map (fun id => if eq_dec id k0 then a else b id) ids = map b ids).
+    { apply map_ext_in. intros x Hx. destruct (eq_dec x k0) as [->|]; [contradiction|reflexivity]. }
+    rewrite E. lia.
+  - destruct Hin as [E|Hin]; [congruence|]. rewrite (IH Hnd' Hin). lia.
+Qed.
+
+Lemma zsum_map_ext {A} (f g : A -> Z) l : (forall x, In x l -> f x = g x) -> zsum (map f l) = zsum (map g l).
+Proof. intros H. f_equal. apply map_ext_in. exact H. Qed.
+
+(** a sum over the id table of a function of the table entry = the weighted sum over the contracts *)
+Lemma table_sum (G : cid -> option contract -> Z) (w : contract -> Z) (ids : list cid) :
+  NoDup ids -> (forall id, G id None = 0) ->
+  forall m : amap cid contract, NoDup (keys m) -> (forall id c, In (id, c) m -> In id ids /\ G id (Some c) = w c) ->
+  zsum (map (fun id => G id (get id m)) ids) = wsum w m.
+Proof.
+  intros Hnd G0. induction m as [|[k0 v0] m IH]; intros Hk Hm.
+  - simpl. unfold wsum. simpl. rewrite (zsum_map_ext _ (fun _ => 0)) by (intros; apply G0).
+    clear. induction ids; simpl; lia.
+  - simpl in Hk. inversion Hk as [|? ? Hni Hk']; subst.
+    destruct (Hm k0 v0 (or_introl eq_refl)) as [Hin Hw].
+    assert (Hg0 : get k0 m = None).
+    { destruct (get k0 m) as [v|] eqn:E; [|reflexivity]. exfalso. apply Hni.
+      apply in_map_iff. exists (k0, v). split; [reflexivity|exact (get_In _ _ _ E)]. }
+    rewrite (zsum_map_ext _ (fun id => if eq_dec id k0 then w v0 else G id (get id m))).
+    + rewrite (zsum_indicator ids k0 (w v0) (fun id => G id (get id m)) Hnd Hin). rewrite Hg0, G0.
+      rewrite IH; [unfold wsum; simpl; lia|exact Hk'|]. intros id c Hi. apply Hm. right. exact Hi.
+    + intros id _. simpl. destruct (eq_dec id k0) as [->|]; [exact Hw|reflexivity].
+Qed.
+
+Lemma wsum_ext {K} (w1 w2 : contract -> Z) (m : list (K * contract)) :
+  (forall k c, In (k, c) m -> w1 c = w2 c) -> wsum w1 m = wsum w2 m.
+Proof. intros H. unfold wsum. f_equal. apply map_ext_in. intros [k c] Hin. simpl. exact (H k c Hin). Qed.
+
+Lemma wsum_sub {K} (w1 w2 : contract -> Z) (m : list (K * contract)) :
+  wsum (fun c => w1 c - w2 c) m = wsum w1 m - wsum w2 m.
+Proof. unfold wsum. induction m as [|[k c] m IH]; simpl; lia. Qed.
+
+(** the partition of a list of events by contract id *)
+Lemma log_effect_partition (ids : list cid) a d : NoDup ids -> forall evs, (forall e, In e evs -> In (ev_id e) ids) ->
+  log_effect evs a d = zsum (map (fun id => log_effect (filter (ev_for id) evs) a d) ids).
+Proof.
+  intros Hnd. induction evs as [|e evs IH]; intros Hin.
+  - unfold log_effect. simpl. clear. induction ids; simpl; lia.
+  - assert (Hin' : forall e', In e' evs -> In (ev_id e') ids) by (intros; apply Hin; right; assumption).
+    rewrite (zsum_map_ext _ (fun id => if eq_dec id (ev_id e) then ev_effect e a d + log_effect (filter (ev_for (ev_id e)) evs) a d
+                                        else log_effect (filter (ev_for id) evs) a d)).
+    + rewrite (zsum_indicator ids (ev_id e) _ (fun id => log_effect (filter (ev_for id) evs) a d) Hnd (Hin e (or_introl eq_refl))).
+      rewrite <- (IH Hin'). unfold log_effect. simpl. lia.
+    + intros id _. simpl. unfold ev_for at 1. unfold eqb. destruct (eq_dec (ev_id e) id) as [E|Hne].
+      * destruct (eq_dec id (ev_id e)); [|congruence]. subst id. unfold log_effect. simpl. reflexivity.
+      * destruct (eq_dec id (ev_id e)); [congruence|reflexivity].
+Qed.
+
+(** ** Part C: how one step changes one contract; views of a model state *)
+Inductive ctrans (h0 h1 : Z) : option contract -> option contract -> Prop :=
+| ct_same oc : ctrans h0 h1 oc oc
+| ct_new c : c_state c = Open -> c_closed c = 0 -> ctrans h0 h1 None (Some c)
+| ct_close c st h : c_state c = Open -> st <> Open -> h0 <= h <= h1 -> ctrans h0 h1 (Some c) (Some (close c st h)).
+
+Definition adv_effect (H : Z) (c : contract) : contract :=
+  if openb c && (c_exp c <=? H) then close c Refunded (c_exp c) else c.
+
+Lemma adv_exact : forall dts s, Inv s -> Strict s ->
+  st_height (fold_left begin_block dts s) = st_height s + Z.of_nat (length dts)
+  /\ forall id, get id (st_contracts (fold_left begin_block dts s))
+                = option_map (adv_effect (st_height (fold_left begin_block dts s))) (get id (st_contracts s)).
+Proof.
+  induction dts as [|dt dts IH]; intros s I S.
+  - simpl. split; [lia|]. intros id. destruct (get id (st_contracts s)) as [c|] eqn:Hg; [|reflexivity]. simpl. f_equal.
+    unfold adv_effect, openb. destruct (c_state c) eqn:Hs; try reflexivity.
+    pose proof (S _ _ Hg Hs). replace (c_exp c <=? st_height s) with false by (symmetry; apply Z.leb_gt; lia). reflexivity.
+  - cbn [fold_left]. destruct (begin_block_spec s dt I S) as (I1 & S1 & Hh & _ & Hc).
+    destruct (IH _ I1 S1) as (Hh' & Hc'). split; [rewrite Hh', Hh; cbn [length]; lia|].
+    intros id. rewrite Hc', Hc. destruct (get id (st_contracts s)) as [c|] eqn:Hg; [|reflexivity]. simpl. f_equal.
+    set (H' := st_height (fold_left begin_block dts (begin_block s dt))) in *.
+    unfold block_effect, adv_effect. destruct (openb c && (c_exp c =? st_height s + 1)) eqn:Hb.
+    + apply andb_true_iff in Hb. destruct Hb as [Ho He]. apply Z.eqb_eq in He. rewrite Ho. cbn.
+      replace (c_exp c <=? H') with true by (symmetry; apply Z.leb_le; lia). cbn. rewrite He. reflexivity.
+    + reflexivity.
+Qed.
+
+Lemma step_ctrans s o : Inv s -> Strict s -> wf_op o ->
+  forall id, ctrans (st_height s) (st_height (step s o)) (get id (st_contracts s)) (get id (st_contracts (step s o))).
+Proof.
+  intros I S W id. unfold step. destruct o as [m|who id0 secret|dts]; simpl.
+  - destruct (create s m) as [s'|] eqn:Hc; [|constructor].
+    destruct (create_open_rel s m s' I W Hc) as (dr & R).
+    rewrite (or_contracts _ _ _ _ R), get_set. destruct (eq_dec id (id_of m)) as [->|Hne]; [|constructor].
+    rewrite (or_fresh _ _ _ _ R). apply ct_new; reflexivity.
+  - pose proof (claim_spec s who id0 secret I) as Hs. destruct (claim s who id0 secret) as [s'|]; [|constructor].
+    destruct Hs as (_ & c & Hg & Ho & _ & R). rewrite (cr_contracts _ _ _ _ _ R), get_set, (cr_height _ _ _ _ _ R).
+    destruct (eq_dec id id0) as [->|Hne]; [|constructor]. rewrite Hg. apply ct_close; [exact Ho|discriminate|lia].
+  - destruct (adv_exact dts s I S) as (Hh & Hc). rewrite Hc.
+    destruct (get id (st_contracts s)) as [c|] eqn:Hg; [|constructor]. simpl. unfold adv_effect.
+    destruct (openb c && (c_exp c <=? st_height (fold_left begin_block dts s))) eqn:Hb; [|constructor].
+    apply andb_true_iff in Hb. destruct Hb as [Ho He]. apply Z.leb_le in He. unfold openb in Ho.
+    destruct (c_state c) eqn:Hst; try discriminate. pose proof (S _ _ Hg Hst).
+    apply ct_close; [exact Hst|discriminate|lia].
+Qed.
+
+Lemma ctrans_trans_ok h0 h1 oc oc' : ctrans h0 h1 oc oc' ->
+  trans_ok h0 h1 (option_map proj_contract oc) (option_map proj_contract oc') = true.
+Proof.
+  intros [oc0|c Ho Hc|c st h Ho Hst Hh]; simpl.
+  - destruct oc0; simpl; [rewrite eqb_refl|]; reflexivity.
+  - unfold proj_contract, c_state_of, c_closed_of. rewrite Ho, Hc. reflexivity.
+  - apply orb_true_iff. right. unfold proj_contract, c_state_of, c_closed_of, static_of, c_exp_of, c_ts_of, c_tr_of, c_dir_of. cbn.
+    rewrite Ho. cbn. rewrite eqb_refl. destruct st; [congruence| |]; cbn;
+      (apply andb_true_iff; split; [apply Z.leb_le|apply Z.leb_le]; lia).
+Qed.
+
+Lemma forallb2_map {A B C} (f : B -> C -> bool) (g1 : A -> B) (g2 : A -> C) l :
+  (forall x, In x l -> f (g1 x) (g2 x) = true) -> forallb2 f (map g1 l) (map g2 l) = true.
+Proof.
+  induction l as [|x l IH]; intros H; simpl; [reflexivity|].
+  rewrite (H x (or_introl eq_refl)). simpl. apply IH. intros y Hy. apply H. right. exact Hy.
+Qed.
+
+Definition cproj (k : case) (s : state) : list (option cobs) :=
+  map (fun id => option_map proj_contract (get id (st_contracts s))) (k_ids k).
+Definition qproj (k : case) (s : state) : list (Z * Z) :=
+  map (fun e : Z * cid => (fst e, index_from (snd e) (k_ids k) 0)) (st_queue s).
+Definition sproj_assets (k : case) (s : state) : list (option (Z * Z * Z * Z * Z)) :=
+  map (fun p => option_map (fun a => (as_in a, as_out a, as_cur a, as_tlc a, as_el a)) (get (ap_denom p) (st_assets s))) (k_params k).
+Definition bsproj (k : case) (s : state) : list Z := map (fun p => sup_of (st_supply s) (ap_denom p)) (k_params k).
+
+(** the observation [o] is the projection of the model state [s] (over [nd] denoms), with result code [code] *)
+Record Vw (k : case) (nd : nat) (s : state) (code : Z) (o : obs) : Prop := mkVw {
+  vw_code : o_code o = code;
+  vw_height : o_height o = st_height s;
+  vw_time : o_time o = st_time s;
+  vw_prev : o_prev o = st_prev s;
+  vw_contracts : o_contracts o = cproj k s;
+  vw_queue : o_queue o = qproj k s;
+  vw_bals : o_bals o = mat (accounts k) nd (bal (st_bank s));
+  vw_sups : o_sups o = sproj_assets k s;
+  vw_bsups : o_bsups o = bsproj k s }.
+
+Lemma mat_hd_length k nd f : length (hd [] (mat (accounts k) nd f)) = nd.
+Proof.
+  unfold mat, accounts. destruct (zseq (Z.to_nat (k_nactors k))) as [|a l]; simpl; rewrite map_length, zseq_length; reflexivity.
+Qed.
+
+Lemma Vw_corr k nd s code o : Vw k nd s code o -> corr_obs k s code o = true.
+Proof.
+  intros V. unfold corr_obs.
+  assert (Hd : denoms_of o = zseq nd) by (unfold denoms_of; rewrite (vw_bals _ _ _ _ _ V), mat_hd_length; reflexivity).
+  rewrite (vw_code _ _ _ _ _ V), (vw_height _ _ _ _ _ V), (vw_time _ _ _ _ _ V), (vw_prev _ _ _ _ _ V), !Z.eqb_refl. simpl.
+  rewrite (vw_contracts _ _ _ _ _ V). unfold cproj. rewrite eqb_refl. simpl.
+  rewrite (vw_queue _ _ _ _ _ V). unfold qproj. rewrite map_length, Nat.eqb_refl. simpl.
+  rewrite Hd, (vw_bals _ _ _ _ _ V). unfold mat. rewrite eqb_refl.
+  rewrite (vw_sups _ _ _ _ _ V), (vw_bsups _ _ _ _ _ V). unfold sproj_assets, bsproj. rewrite !eqb_refl.
+  rewrite !andb_true_r. apply forallb_forall. intros e He. apply existsb_exists.
+  exists (fst e, index_from (snd e) (k_ids k) 0). split.
+  - apply in_map_iff. exists e. auto.
+  - simpl. rewrite !Z.eqb_refl. reflexivity.
+Qed.
+
+(** ** Part D: the clauses of the monitors *)
+Record Tbl (k : case) (s : state) : Prop := mkTbl {
+  tb_nodup : NoDup (k_ids k);
+  tb_nact : nact_ok k;
+  tb_complete : forall id c, get id (st_contracts s) = Some c -> In id (k_ids k);
+  tb_range : forall id, In id (k_ids k) ->
+     (id_sender id < k_nactors k \/ id_sender id = ESC \/ id_sender id = BLK)
+     /\ (id_to id < k_nactors k \/ id_to id = ESC \/ id_to id = BLK)
+     /\ denoms_nonneg (id_amount id);
+  tb_pden : NoDup (map ap_denom (k_params k));
+  tb_params : st_params s = k_params k }.
+
+Lemma id_fields P id c : wfc P id c ->
+  id_hl id = c_hl c /\ id_sender id = c_sender c /\ id_to id = c_to c /\ id_amount id = c_amount c.
+Proof. intros (-> & _). repeat split; reflexivity. Qed.
+
+Lemma existing_id_ok k s id c : Inv s -> Tbl k s -> get id (st_contracts s) = Some c -> id_ok k id.
+Proof.
+  intros I T Hg. pose proof (inv_wfc _ I _ _ (get_In _ _ _ Hg)) as W.
+  destruct (id_fields _ _ _ W) as (_ & Hs & Ht & _).
+  destruct W as (_ & _ & Hs1 & Hs2 & Ht1 & Ht2 & (Hs0 & Ht0) & _).
+  destruct (tb_range _ _ T id (tb_complete _ _ T _ _ Hg)) as (Rs & Rt & Rd).
+  rewrite Hs in Rs. rewrite Ht in Rt. unfold id_ok, party_ok. rewrite Hs, Ht.
+  split; [left; lia|]. split; [left; lia|exact Rd].
+Qed.
+
+Lemma locks_proj c : locks (proj_contract c) = locksb c.
+Proof. unfold locks, proj_contract, locksb, is_out, c_tr_of, c_dir_of. destruct (c_transfer c), (c_dir c); reflexivity. Qed.
+
+Lemma delta_same id p : delta_evs id (Some p) (Some p) = [].
+Proof.
+  unfold delta_evs. destruct (c_state_of p =? 0) eqn:E0; simpl; [|reflexivity].
+  apply Z.eqb_eq in E0. rewrite E0. reflexivity.
+Qed.
+
+Lemma delta_filter P id h0 h1 oc oc' X : ctrans h0 h1 oc oc' -> (forall c, oc' = Some c -> wfc P id c) ->
+  X ++ expected_log id oc = expected_log id oc' ->
+  X = delta_evs id (option_map proj_contract oc) (option_map proj_contract oc').
+Proof.
+  intros [oc0|c Ho Hc|c st h Ho Hst Hh] W E.
+  - assert (X = []) by (apply (app_inv_tail (expected_log id oc0)); exact E). subst X.
+    destruct oc0; cbn [option_map]; [rewrite delta_same|]; reflexivity.
+  - destruct (id_fields _ _ _ (W c eq_refl)) as (_ & Hs & _ & Ha).
+    simpl in E. rewrite Ho, app_nil_r in E. simpl in E. subst X. simpl.
+    rewrite locks_proj, Hs, Ha. reflexivity.
+  - pose proof (W _ eq_refl) as Wc. destruct (id_fields _ _ _ Wc) as (_ & Hs & Ht & Ha). cbn in Hs, Ht, Ha.
+    destruct Wc as (_ & _ & _ & _ & _ & _ & _ & Hkind). cbn in Hkind.
+    assert (EX : X = close_events id c st).
+    { apply (app_inv_tail (open_events id c)). simpl in E. rewrite Ho in E. exact E. }
+    subst X. unfold delta_evs. simpl. rewrite locks_proj.
+    unfold proj_contract, c_state_of, c_tr_of, c_dir_of. cbn. rewrite Ho. cbn.
+    unfold close_events, locksb, is_in, is_out. cbn. rewrite Hs, Ht, Ha.
+    destruct st; [congruence| |]; cbn.
+    + destruct (c_transfer c); cbn; [|reflexivity].
+      destruct (c_dir c); cbn; try reflexivity. destruct Hkind as [_ Hd]. congruence.
+    + destruct (c_transfer c); cbn; [|reflexivity]. destruct (c_dir c); reflexivity.
+Qed.
+
+(** what a step adds to the log and to the bank *)
+Lemma step_log_bank s o : exists evs, st_log (step s o) = evs ++ st_log s
+  /\ forall a d, bal (st_bank (step s o)) a d = bal (st_bank s) a d + log_effect evs a d.
+Proof. exact (step_Acc s o). Qed.
+
+Lemma new_event_ids k s s' evs : Inv s' -> Tbl k s' -> st_log s' = evs ++ st_log s ->
+  forall e, In e evs -> In (ev_id e) (k_ids k).
+Proof.
+  intros I' T' Hl e He.
+  destruct (get (ev_id e) (st_contracts s')) as [c|] eqn:Hg; [exact (tb_complete _ _ T' _ _ Hg)|].
+  exfalso. pose proof (inv_log _ I' (ev_id e)) as Hf. rewrite Hg in Hf. simpl in Hf.
+  assert (Hin : In e (filter (ev_for (ev_id e)) (st_log s'))).
+  { apply filter_In. split; [rewrite Hl; apply in_or_app; left; exact He|]. unfold ev_for. apply eqb_refl. }
+  rewrite Hf in Hin. destruct Hin.
+Qed.
+
+Lemma combine_map_r {A B} (g : A -> B) (l : list A) : combine l (map g l) = map (fun x => (x, g x)) l.
+Proof. induction l as [|x l IH]; simpl; [reflexivity|]. rewrite IH. reflexivity. Qed.
+
+Lemma zsum_map_sub {A} (f g : A -> Z) l : zsum (map (fun x => f x - g x) l) = zsum (map f l) - zsum (map g l).
+Proof. induction l as [|x l IH]; simpl; lia. Qed.
+
+Definition Gcur (d : denom) (oc : option contract) : Z := match oc with Some c => w_cur d c | None => 0 end.
+
+Lemma supply_delta P d id h0 h1 oc oc' : ctrans h0 h1 oc oc' -> (forall c, oc' = Some c -> wfc P id c) ->
+  trans_supply d id (option_map proj_contract oc) (option_map proj_contract oc') = Gcur d oc' - Gcur d oc.
+Proof.
+  intros [oc0|c Ho Hc|c st h Ho Hst Hh] W.
+  - destruct oc0 as [c|]; simpl; [|lia]. unfold c_state_of, proj_contract.
+    destruct (state_code (c_state c) =? 0) eqn:E0; simpl; [|lia]. apply Z.eqb_eq in E0. rewrite E0. simpl. lia.
+  - simpl. rewrite (open_w_cur d c Ho). lia.
+  - pose proof (W _ eq_refl) as Wc. destruct (id_fields _ _ _ Wc) as (_ & _ & _ & Ha). cbn in Ha.
+    destruct Wc as (_ & _ & _ & _ & _ & _ & _ & Hkind). cbn in Hkind.
+    simpl. rewrite (open_w_cur d c Ho). unfold trans_supply, proj_contract, c_state_of, c_tr_of, c_dir_of. cbn.
+    rewrite Ho, Ha. cbn. unfold w_cur, complb, is_in, is_out, amt. cbn.
+    destruct st; [congruence| |]; cbn.
+    + destruct (c_transfer c); cbn; [|lia]. destruct (c_dir c); cbn; try lia. destruct Hkind as [_ Hd]. congruence.
+    + lia.
+Qed.
+
+Lemma get_param_NoDup P p : NoDup (map ap_denom P) -> In p P -> get_param P (ap_denom p) = Some p.
+Proof.
+  unfold get_param. induction P as [|p0 P IH]; simpl; intros Hnd Hin; [destruct Hin|].
+  inversion Hnd as [|? ? Hni Hnd']; subst. destruct Hin as [->|Hin]; [rewrite Z.eqb_refl; reflexivity|].
+  destruct (Z.eqb_spec (ap_denom p0) (ap_denom p)) as [E|Hne]; [|exact (IH Hnd' Hin)].
+  exfalso. apply Hni. rewrite E. apply in_map. exact Hin.
+Qed.
+
+Lemma In_get {K V} `{EqDec K} (m : amap K V) k v : In (k, v) m -> exists v', get k m = Some v'.
+Proof.
+  induction m as [|[k0 v0] m IH]; simpl; [tauto|]. intros [E|Hin].
+  - inversion E; subst. destruct (eq_dec k k); [eauto|congruence].
+  - destruct (eq_dec k k0); [eauto|exact (IH Hin)].
+Qed.
+
+Lemma new_event_exists s s' evs : Inv s' -> st_log s' = evs ++ st_log s ->
+  forall e, In e evs -> exists c, get (ev_id e) (st_contracts s') = Some c.
+Proof.
+  intros I' Hl e He. destruct (get (ev_id e) (st_contracts s')) as [c|] eqn:Hg; [eauto|].
+  exfalso. pose proof (inv_log _ I' (ev_id e)) as Hf. rewrite Hg in Hf. simpl in Hf.
+  assert (Hin : In e (filter (ev_for (ev_id e)) (st_log s'))).
+  { apply filter_In. split; [rewrite Hl; apply in_or_app; left; exact He|]. unfold ev_for. apply eqb_refl. }
+  rewrite Hf in Hin. destruct Hin.
+Qed.
+
+Definition Pof (s : state) (id : cid) : option cobs := option_map proj_contract (get id (st_contracts s)).
+
+Lemma cproj_Pof k s : cproj k s = map (Pof s) (k_ids k).
+Proof. reflexivity. Qed.
+
+(** everything the clauses need to know about one step of the model *)
+Record StepFacts (k : case) (s s' : state) (evs : list event) : Prop := mkSF {
+  sf_inv : Inv s; sf_inv' : Inv s'; sf_strict' : Strict s';
+  sf_tbl' : Tbl k s';
+  sf_ct : forall id, ctrans (st_height s) (st_height s') (get id (st_contracts s)) (get id (st_contracts s'));
+  sf_log : st_log s' = evs ++ st_log s;
+  sf_bank : forall a d, bal (st_bank s') a d = bal (st_bank s) a d + log_effect evs a d;
+  sf_params : st_params s' = st_params s }.
+
+Lemma step_facts k s o : Inv s -> Strict s -> wf_op o -> Tbl k (step s o) -> exists evs, StepFacts k s (step s o) evs.
+Proof.
+  intros I S W T. destruct (step_inv s o I S W) as (I' & S' & P'). destruct (step_log_bank s o) as (evs & Hl & Hb).
+  exists evs. constructor; auto. exact (step_ctrans s o I S W).
+Qed.
+
+Section OneStep.
+  Context (k : case) (nd : nat) (s s' : state) (evs : list event) (F : StepFacts k s s' evs).
+
+  Let ids := k_ids k.
+
+  Lemma sf_wfc' id c : get id (st_contracts s') = Some c -> wfc (st_params s') id c.
+  Proof. intros Hg. exact (inv_wfc _ (sf_inv' _ _ _ _ F) _ _ (get_In _ _ _ Hg)). Qed.
+
+  Lemma sf_filter id : filter (ev_for id) evs = delta_evs id (Pof s id) (Pof s' id).
+  Proof.
+    apply (delta_filter (st_params s') id _ _ _ _ _ (sf_ct _ _ _ _ F id)).
+    - intros c Hc. exact (sf_wfc' id c Hc).
+    - rewrite <- (inv_log _ (sf_inv _ _ _ _ F) id), <- (inv_log _ (sf_inv' _ _ _ _ F) id), (sf_log _ _ _ _ F), filter_app. reflexivity.
+  Qed.
+
+  Lemma sf_complete id c : get id (st_contracts s) = Some c -> In id ids.
+  Proof.
+    intros Hg. pose proof (sf_ct _ _ _ _ F id) as Hct. rewrite Hg in Hct.
+    inversion Hct as [oc E1 E2| |c0 st h Ho Hst Hh E1 E2].
+    - symmetry in E2. exact (tb_complete _ _ (sf_tbl' _ _ _ _ F) _ _ E2).
+    - symmetry in E2. exact (tb_complete _ _ (sf_tbl' _ _ _ _ F) _ _ E2).
+  Qed.
+
+  Lemma sf_moves po o code0 code : Vw k nd s code0 po -> Vw k nd s' code o -> moves_ok k po o = true.
+  Proof.
+    intros V V'. pose proof (sf_tbl' _ _ _ _ F) as T. pose proof (sf_inv _ _ _ _ F) as I. pose proof (sf_inv' _ _ _ _ F) as I'.
+    unfold moves_ok. apply andb_true_iff. split.
+    - rewrite (vw_bals _ _ _ _ _ V), (vw_bals _ _ _ _ _ V'), (vw_contracts _ _ _ _ _ V), (vw_contracts _ _ _ _ _ V'), !cproj_Pof.
+      rewrite (fold3_trans_moves k nd (Pof s) (Pof s') (tb_nact _ _ T)).
+      + apply eqb_true_iff. apply mat_ext. intros a d _ _. rewrite (sf_bank _ _ _ _ F), delta_all_effect.
+        rewrite (zsum_map_ext _ (fun id => log_effect (filter (ev_for id) evs) a d)) by (intros id _; rewrite sf_filter; reflexivity).
+        rewrite <- (log_effect_partition (k_ids k) a d (tb_nodup _ _ T)); [reflexivity|].
+        intros e He. destruct (new_event_exists s s' evs I' (sf_log _ _ _ _ F) e He) as (c & Hg). exact (tb_complete _ _ T _ _ Hg).
+      + intros id Hin Hne. rewrite <- sf_filter in Hne.
+        destruct (filter (ev_for id) evs) as [|e l] eqn:Ef; [congruence|].
+        assert (He : In e (filter (ev_for id) evs)) by (rewrite Ef; left; reflexivity).
+        apply filter_In in He. destruct He as [He Hid]. unfold ev_for in Hid. apply (proj1 (eqb_true_iff _ _)) in Hid.
+        destruct (new_event_exists s s' evs I' (sf_log _ _ _ _ F) e He) as (c & Hg). rewrite Hid in Hg.
+        exact (existing_id_ok k s' id c I' T Hg).
+    - rewrite (vw_bsups _ _ _ _ _ V), (vw_bsups _ _ _ _ _ V'), (vw_contracts _ _ _ _ _ V), (vw_contracts _ _ _ _ _ V'), !cproj_Pof.
+      unfold bsproj. rewrite combine_map_r, map_map. apply eqb_true_iff. apply map_ext_in. intros p Hp. cbn [fst snd].
+      rewrite fold3_sum.
+      assert (Hgp : get_param (st_params s) (ap_denom p) = Some p).
+      { rewrite <- (sf_params _ _ _ _ F), (tb_params _ _ T). exact (get_param_NoDup _ _ (tb_pden _ _ T) Hp). }
+      assert (Hgp' : get_param (st_params s') (ap_denom p) = Some p) by (rewrite (sf_params _ _ _ _ F); exact Hgp).
+      destruct (inv_asset _ I _ _ Hgp) as (a & _ & _ & _ & Hcur & Hsup & _).
+      destruct (inv_asset _ I' _ _ Hgp') as (a' & _ & _ & _ & Hcur' & Hsup' & _).
+      rewrite Hsup, Hsup', Hcur, Hcur'.
+      rewrite <- (table_sum (fun _ oc => Gcur (ap_denom p) oc) (w_cur (ap_denom p)) (k_ids k) (tb_nodup _ _ T) (fun _ => eq_refl)
+                            (st_contracts s) (inv_keys _ I)).
+      2:{ intros id c Hin. split; [|reflexivity]. destruct (In_get _ _ _ Hin) as (c' & Hg). exact (sf_complete id c' Hg). }
+      rewrite <- (table_sum (fun _ oc => Gcur (ap_denom p) oc) (w_cur (ap_denom p)) (k_ids k) (tb_nodup _ _ T) (fun _ => eq_refl)
+                            (st_contracts s') (inv_keys _ I')).
+      2:{ intros id c Hin. split; [|reflexivity]. destruct (In_get _ _ _ Hin) as (c' & Hg). exact (tb_complete _ _ T _ _ Hg). }
+      rewrite (zsum_map_ext (fun id => trans_supply (ap_denom p) id (Pof s id) (Pof s' id))
+                            (fun id => Gcur (ap_denom p) (get id (st_contracts s')) - Gcur (ap_denom p) (get id (st_contracts s)))).
+      + rewrite zsum_map_sub. lia.
+      + intros id _. unfold Pof. apply (supply_delta (st_params s') _ id _ _ _ _ (sf_ct _ _ _ _ F id)).
+        intros c Hc. exact (sf_wfc' id c Hc).
+  Qed.
+
+  Lemma sf_sm po o code0 code : Vw k nd s code0 po -> Vw k nd s' code o ->
+    forallb2 (trans_ok (o_height po) (o_height o)) (o_contracts po) (o_contracts o) = true.
+  Proof.
+    intros V V'. rewrite (vw_contracts _ _ _ _ _ V), (vw_contracts _ _ _ _ _ V'), (vw_height _ _ _ _ _ V), (vw_height _ _ _ _ _ V').
+    unfold cproj. apply forallb2_map. intros id _. apply ctrans_trans_ok. exact (sf_ct _ _ _ _ F id).
+  Qed.
+End OneStep.
